@@ -24,6 +24,7 @@ type RegOp struct {
 	Service  string   `json:"service,omitempty"`  // regsvc: the local service
 	Adv      []string `json:"adv"`                // regconn: set the backend's advertised services first (nil: unchanged)
 	Fail     string   `json:"fail,omitempty"`     // regconn: "" | dead | refl:<j> | cancel
+	Schema   int      `json:"schema,omitempty"`   // regconn: 0 = whatever version the backend runs; 1, 2 = redeploy it with that version of its descriptors first
 }
 
 // regResult is what one registrar operation returned, stamped with driver steps.
@@ -38,6 +39,7 @@ type regResult struct {
 	Stack    string
 	Done     bool
 	AdvAt    []string // services advertised by the target when the operation ran
+	SchemaAt int      // version of its descriptors at that time
 	SnapBefore, SnapAfter unsafe.Pointer
 	FPBefore, FPAfter     string
 }
@@ -139,7 +141,10 @@ func (g *registrar) exec(res *regResult) {
 		if op.Adv != nil {
 			b.provider.set(op.Adv)
 		}
-		res.AdvAt = b.provider.get()
+		if op.Schema != 0 {
+			b.provider.setSchema(op.Schema)
+		}
+		res.AdvAt, res.SchemaAt = b.provider.get(), b.provider.schemaVersion()
 		// The caller's context lives on after the call, as context.Background()
 		// or a server-lifetime context would: whatever the registration leaves
 		// open on the connection stays open (cancelled at teardown). Only a
@@ -346,6 +351,7 @@ func (rs *reqState) probeOutcome() probeOutcome {
 type refResult struct {
 	Skipped string   // why no comparison was made ("" = compared)
 	Err     string   // the reference registration failed
+	Skew    bool     // two versions of one proto file were registered at the same time at some point: routes of a version that has left since may legitimately remain (larking keeps a method's rules while the method has a provider), so only missing routes are judged
 	Got     []string // larking.VerifRoutes of the history's final snapshot
 	Want    []string // ... of the reference
 	Live    string   // what was registered on the reference
@@ -356,6 +362,7 @@ func (mr *muxRun) referenceCheck(world *World) *refResult {
 	var locals []string
 	seenLocal := map[string]bool{}
 	advOf := map[string][]string{} // target -> what it advertised at its last successful registration
+	schemaOf := map[string]int{}   // ... and the version of its descriptors then
 	groups := []*registrar{mr.registrars[0]}
 	if mr.pre != nil {
 		groups = []*registrar{mr.pre, mr.registrars[0]}
@@ -393,9 +400,27 @@ func (mr *muxRun) referenceCheck(world *World) *refResult {
 				}
 				if rr.Err == nil {
 					advOf[rr.Op.Target] = append([]string{}, rr.AdvAt...)
+					schemaOf[rr.Op.Target] = rr.SchemaAt
 				}
 			case "drop":
 				delete(advOf, rr.Op.Target)
+			}
+			// versions of api/test.proto registered right now
+			versions := map[int]bool{}
+			for _, s := range locals {
+				if s != tsvc {
+					versions[1] = true
+				}
+			}
+			for t, adv := range advOf {
+				for _, s := range adv {
+					if s != tsvc {
+						versions[schemaOf[t]] = true
+					}
+				}
+			}
+			if len(versions) > 1 {
+				out.Skew = true
 			}
 		}
 	}
@@ -422,7 +447,8 @@ func (mr *muxRun) referenceCheck(world *World) *refResult {
 	for _, t := range targets {
 		b := mr.backendByTag(t)
 		b.provider.set(advOf[t])
-		live = append(live, t+"="+strings.Join(advOf[t], ","))
+		b.provider.setSchema(schemaOf[t])
+		live = append(live, t+"="+strings.Join(advOf[t], ",")+"@v"+strconv.Itoa(schemaOf[t]))
 		ctx, cancel := context.WithTimeout(context.Background(), 5*time.Second)
 		err := ref.RegisterConn(ctx, b.cc)
 		cancel()
@@ -480,6 +506,17 @@ func oracleReference(prop string, mr *muxRun, hist string, cnt *[core.NumCounter
 	}
 	cnt[cReferenceCompared]++
 	extra, missing := r.diff()
+	if r.Skew {
+		// bindings that only the history has are not judged (see Skew);
+		// handler and connection counts are, and so is every missing binding
+		var e2 []string
+		for _, l := range extra {
+			if strings.HasPrefix(l, "handlers ") || strings.HasPrefix(l, "conns ") {
+				e2 = append(e2, l)
+			}
+		}
+		extra = e2
+	}
 	if len(extra)+len(missing) > 0 {
 		return violationf(prop, "state-depends-on-history", "reference", "history [%s] left {%s} registered, but its final snapshot does not route what a fresh registration of the same set routes:\n  only after the history: %v\n  only on the fresh mux:  %v", hist, r.Live, extra, missing)
 	}
